@@ -288,13 +288,13 @@ def TASKS(tier):
     ts = [Task('replication_algebra', 'replication_algebra', {},
                bounds='Replication a, b, c: every variant, Limited(n) with n >= 1 symbolic u64; cores >= 1 symbolic',
                role='replication', opts={'covers': ['end']})]
-    grid = [(1, 3), (2, 2), (3, 2)] if tier == 'quick' else [(1, 4), (2, 3), (3, 3), (4, 2)]
+    grid = [(1, 3), (2, 2), (3, 2)] if tier == 'quick' else [(1, 4), (2, 3), (3, 2)]
     for nh, mc in grid:
         ts.append(Task('block_info_h%d_c%d' % (nh, mc), 'block_info_harness', {'nhosts': nh, 'maxcores': mc},
                        bounds='remote_block_info derived on each of %d hosts with 1..%d cores each (symbolic), every '
                               'Replication (Limited(q), 1 <= q <= hosts*cores+1 symbolic)' % (nh, mc),
                        role='block_info', opts={'covers': ['several_replicas']}, budget=300))
-    g2 = [(1, 3), (2, 2)] if tier == 'quick' else [(1, 4), (2, 3), (3, 2)]
+    g2 = [(1, 3), (2, 2)] if tier == 'quick' else [(1, 4), (2, 2), (2, 3)]
     for nh, mc in g2:
         for mode in ('forward', 'fragile', 'shuffle'):
             ts.append(Task('graph_%s_h%d_c%d' % (mode, nh, mc), 'graph_harness',
@@ -406,7 +406,7 @@ _graph_tasks = TASKS
 
 def TASKS(tier):    # noqa: F811
     ts = _graph_tasks(tier)
-    for nh, nl in ([(2, 2)] if tier == 'quick' else [(2, 2), (2, 3), (3, 2)]):
+    for nh, nl in ([(2, 2)] if tier == 'quick' else [(2, 2), (2, 3)]):
         ts.append(Task('topology_build_h%d_l%d' % (nh, nl), 'topology_build_harness', {'nhosts': nh, 'nlinks': nl},
                        bounds='NetworkTopology::build with %d links between replicas of 3 blocks on %d hosts (every '
                               'choice), symbolic base ports, the link map iterated in every order' % (nl, nh),
